@@ -18,6 +18,8 @@ import vt
 
 PY = sys.executable
 VERIF = vt.VERIF
+# development only (scratch copies analysed with VT_REPO): keep their evidence and replays away from the real ones
+EVDIR = os.environ.get('VT_EVIDENCE_DIR') or os.path.join(VERIF, 'evidence')
 
 HARNESS = {
     'C%02d' % i: ['vt.harness.c%02d' % i] for i in range(1, 21)
@@ -47,7 +49,7 @@ def replay_file(path, profile=False, timeout=600):
 
 
 def write_replay(pid, module, cname, famv, args, mode, tag=''):
-    d = os.path.join(VERIF, 'evidence', 'replays')
+    d = os.path.join(EVDIR, 'replays')
     os.makedirs(d, exist_ok=True)
     spec = dict(property=pid, module=module, cond=cname, fam=famv, args=args, mode=mode)
     h = hashlib.sha1(json.dumps(spec, sort_keys=True).encode()).hexdigest()[:10]
@@ -141,7 +143,7 @@ def check_property(pid, tier, only=None, jobs=None, seed=0):
     violations = []
     harness_errors = []
     os.environ['VERIF_TIER'] = tier
-    rdir = os.path.join(VERIF, 'evidence', 'replays')
+    rdir = os.path.join(EVDIR, 'replays')
     if os.path.isdir(rdir) and not only:
         for fn in os.listdir(rdir):
             if fn.startswith(pid + '-'):
@@ -306,8 +308,8 @@ def write_evidence(pid, tier, seed, results, violations, harness_errors, known_l
         ),
         assumptions=assumptions,
     )
-    os.makedirs(os.path.join(VERIF, 'evidence'), exist_ok=True)
-    with open(os.path.join(VERIF, 'evidence', '%s.json' % pid), 'w') as f:
+    os.makedirs(EVDIR, exist_ok=True)
+    with open(os.path.join(EVDIR, '%s.json' % pid), 'w') as f:
         json.dump(ev, f, indent=1, sort_keys=True)
 
 
